@@ -15,7 +15,7 @@ G  histories `OpC`, `goodIn_foldl`, headline `fixedIn_constant_ratio_safe`
 H  accounting over histories: `no_drift`, `no_drift_init`, `totalIn_valid`, `no_drift_valid`
 I  non-vacuity examples (and finding D12 at the level of `process`)
 
-"Machine sizes" assumption (`GoodIn.machine`): `outNextIn maxChunk orig orig ≤ idleFuel = 10^8`.
+"Machine sizes" assumption (`GoodIn.machine`): `outNextIn maxChunk orig orig ≤ idleFuel = 10^6`.
 The model bounds the stepping loop by `idleFuel` when NO channel is active (nothing is written then,
 the real loop is bounded by `end_idx` only); the assumption makes that artificial bound irrelevant.
 -/
@@ -270,7 +270,7 @@ theorem sincIn_finish {r : ℚ} (hr : 0 < r) (s : AState ℚ ℚ) (mask : List B
 
 /-- Everything a fixed-input resampler (`FastFixedIn`, `SincFixedIn`) satisfies as long as its ratio
 is never changed.  `machine` is the "machine sizes" assumption: the advertised output size of the
-largest chunk is below the model's idle fuel `10^8` (the fuel is only used when NO channel is
+largest chunk is below the model's idle fuel `10^6` (the fuel is only used when NO channel is
 active; real buffers cannot reach that size anyway). -/
 structure GoodIn (s : AState ℚ ℚ) : Prop where
   kind : s.kind = .fastIn ∨ s.kind = .sincIn
